@@ -120,11 +120,20 @@ class RefQueue:
 
 @world('env')
 class EnvWorld(CompWorld):
-    _canon_skip = CompWorld._canon_skip + ('last_fired', 'in_real_run', 'cur', 'assets', 'sched_ops', 'ext', 'runs')
+    _canon_skip = CompWorld._canon_skip + ('last_fired', 'in_real_run', 'cur', 'assets', 'sched_ops', 'ext', 'runs', 'system')
 
     def __init__(self, params):
         super().__init__(params)
-        self.env = Environment()
+        self.system = None
+        if params.get('system'):
+            # the run is started through System.simulate() (C01 anchors system.py); no assets are registered
+            from simprocesd.model import System
+            saved = System._instance
+            self.system = System()
+            System._instance = saved
+            self.env = self.system.env
+        else:
+            self.env = Environment()
         self.ref = RefQueue()
         self.mode = 'idle'
         self.run_end = None
@@ -193,7 +202,12 @@ class EnvWorld(CompWorld):
             elif k == 'run':
                 self._open_run(label[1])
                 if not self.in_real_run:
-                    # exactly the preamble of Environment.run (the replay goes through the real one)
+                    # exactly the preamble of System.simulate / Environment.run (the replay goes through the real ones)
+                    s = self.system
+                    if s is not None and not s._simulation_is_initialized:
+                        s.resource_manager.initialize(s._env)
+                        s._initialize_assets()
+                        s._simulation_is_initialized = True
                     env._terminated = False
                     env._trace = False
                     env.schedule_event(env.now + label[1], -1, env._terminate, EventType.TERMINATE)
@@ -386,10 +400,22 @@ class EnvWorld(CompWorld):
                         w.apply(label)              # reference side + bookkeeping only
                         w.env.step = shim
                         try:
-                            w.env.run(label[1])      # the REAL run loop
+                            if w.system is not None:
+                                from simprocesd.model import System
+                                saved = System._instance
+                                System._instance = w.system
+                                try:
+                                    w.system.simulate(label[1], print_summary=False)   # the REAL System.simulate
+                                finally:
+                                    System._instance = saved
+                            else:
+                                w.env.run(label[1])      # the REAL run loop
                         finally:
                             w.env.__dict__.pop('step', None)
                             w.in_real_run = False
+                        if w.mode != 'idle':
+                            raise Violation('run_end', f'run({label[1]}) returned at t={w.env.now} before its end '
+                                                       f't={w.run_end} was reached')
                         w.check()
                     else:
                         w.apply(label)
